@@ -87,8 +87,14 @@ Init ==
        [] Family = "widthratio" -> (
             \E v \in 0..12, m \in 1..12, w \in {10, 100, 7} :
               LET r == WidthRatio(v, m, w) IN vec = Vec("widthratio", I(v), P(I(m), I(w)), P(I(r.lo), I(r.hi))))
-       [] Family = "escape" -> (\E w \in StrsUpTo(EscAlpha, MaxLen) : vec = Vec("escape", S(Mk(EscAlpha, w)), Nil, S(Escape(Mk(EscAlpha, w)))))
-       [] Family = "addslashes" -> (\E w \in StrsUpTo(SlashAlpha, MaxLen) : vec = Vec("addslashes", S(Mk(SlashAlpha, w)), Nil, S(AddSlashes(Mk(SlashAlpha, w)))))
+       [] Family = "escape" -> (\E w \in StrsUpTo(EscAlpha, MaxLen) :
+                                  \/ vec = Vec("escape", S(Mk(EscAlpha, w)), Nil, S(Escape(Mk(EscAlpha, w))))
+                                  \* the filter does what it says whatever the history of its input: also on text marked safe
+                                  \/ (Len(w) <= MaxLen - 1 /\ vec = Vec("escape", Markup(<<S(Mk(EscAlpha, w))>>), Nil, S(Escape(Mk(EscAlpha, w)))))
+                                  \/ (Len(w) <= MaxLen - 2 /\ vec = Vec("e", Markup(<<S(Mk(EscAlpha, w))>>), Nil, S(Escape(Mk(EscAlpha, w))))))
+       [] Family = "addslashes" -> (\E w \in StrsUpTo(SlashAlpha, MaxLen) :
+                                      \/ vec = Vec("addslashes", S(Mk(SlashAlpha, w)), Nil, S(AddSlashes(Mk(SlashAlpha, w))))
+                                      \/ (Len(w) <= MaxLen - 2 /\ vec = Vec("addslashes", Markup(<<S(Mk(SlashAlpha, w))>>), Nil, S(AddSlashes(Mk(SlashAlpha, w))))))
        [] Family = "escapejs" -> (\E w \in StrsUpTo(JsAlpha, MaxLen) : vec = Vec("escapejs", S(Mk(JsAlpha, w)), Nil, S(EscapeJs(Mk(JsAlpha, w)))))
        [] Family = "urlencode" -> (\E w \in StrsUpTo(UrlAlpha, MaxLen) :
                                      \/ vec = Vec("urlencode", S(Mk(UrlAlpha, w)), Nil, S(UrlEncode(Mk(UrlAlpha, w))))
@@ -116,8 +122,8 @@ Shapes ==
                   IF d = 0 THEN dots = {} ELSE dots = {Len(vec.out.s) - d})
                /\ (vec.out.k = "int" => ThousandthsOf(vec.in) = 1000 * vec.out.n /\ (vec.arg.k # "int" \/ vec.arg.n <= 0))
           [] vec.f = "stringformat" -> Len(vec.out.s) >= Len(StrOf(vec.in))
-          [] vec.f = "escape" -> EscapeDecodes(vec.in.s) /\ EscapeNoDangerous(vec.in.s)
-          [] vec.f = "addslashes" -> AddSlashesOnlyNamed(vec.in.s)
+          [] vec.f = "escape" /\ vec.in.k = "str" -> EscapeDecodes(vec.in.s) /\ EscapeNoDangerous(vec.in.s)
+          [] vec.f = "addslashes" /\ vec.in.k = "str" -> AddSlashesOnlyNamed(vec.in.s)
           [] vec.f = "escapejs" -> JsOnlySafe(vec.in.s)
           [] vec.f = "striptags" -> NoCompleteTag(vec.in.s)
           [] OTHER -> TRUE
